@@ -256,6 +256,7 @@ type call struct {
 	ackCh                          chan struct{}
 	trecv                          capnp.Recv
 	enqSeq                         int
+	rel                            int // how many times the call's ReleaseArgs ran (calls made with Recv / PipelineRecv only)
 }
 
 type decision struct {
@@ -773,6 +774,11 @@ func (r *ret) Return(e error) {
 	h := r.h
 	h.mu.Lock()
 	c := h.calls[r.id]
+	if c.rel == 0 {
+		// the arguments must have been released no later than the completion (Recv.Return / Recv.Reject / the
+		// method goroutine: ReleaseArgs first, then Returner.Return)
+		h.flag("args-not-released")
+	}
 	k := cls(e)
 	if h.coarse(c) && e != nil {
 		k = "err" // errors that passed through the root's Answer are annotated: only ok / err
@@ -782,6 +788,18 @@ func (r *ret) Return(e error) {
 		h.flag("completed-twice")
 	}
 	h.mu.Unlock()
+}
+
+// relArgs is the ReleaseArgs of a call made with Recv / PipelineRecv: it counts.
+func (h *hist) relArgs(c *call) capnp.ReleaseFunc {
+	return func() {
+		h.mu.Lock()
+		c.rel++
+		if c.rel > 1 {
+			h.flag("args-released-twice")
+		}
+		h.mu.Unlock()
+	}
 }
 
 func argsFor(id int) capnp.Struct {
@@ -819,7 +837,7 @@ func (h *hist) issue(c *call) {
 			h.mu.Unlock()
 			return
 		case c.direct:
-			pc = h.srv.Recv(c.ctx, capnp.Recv{Method: meth, Args: argsFor(c.id), ReleaseArgs: func() {}, Returner: &ret{h, c.id}})
+			pc = h.srv.Recv(c.ctx, capnp.Recv{Method: meth, Args: argsFor(c.id), ReleaseArgs: h.relArgs(c), Returner: &ret{h, c.id}})
 		default:
 			on := h.calls[c.on]
 			tr := []capnp.PipelineOp{{Field: c.field}}
@@ -853,7 +871,7 @@ func (h *hist) issue(c *call) {
 				h.mu.Unlock()
 				return
 			}
-			r := capnp.Recv{Method: meth, Args: argsFor(c.id), ReleaseArgs: func() {}, Returner: &ret{h, c.id}}
+			r := capnp.Recv{Method: meth, Args: argsFor(c.id), ReleaseArgs: h.relArgs(c), Returner: &ret{h, c.id}}
 			if on.viaAns() {
 				pc = on.ans.PipelineRecv(c.ctx, tr, r)
 			} else {
@@ -1088,8 +1106,15 @@ func (h *hist) observe() (string, string) {
 	}
 	obs := "[" + strings.Join(h.log, ",") + "]"
 	h.log = h.log[:0]
-	var comp, retd, canc []string
+	var comp, retd, canc, rels []string
 	for _, c := range h.calls {
+		if !c.viaAns() && c.rel > 0 {
+			if c.rel == 1 {
+				rels = append(rels, fmt.Sprint(c.id))
+			} else {
+				rels = append(rels, fmt.Sprintf("%dx%d", c.id, c.rel))
+			}
+		}
 		if len(c.completions) > 0 {
 			comp = append(comp, fmt.Sprintf("%d=%s", c.id, strings.Join(c.completions, "+")))
 		}
@@ -1133,7 +1158,7 @@ func (h *hist) observe() (string, string) {
 			}
 		}
 	}
-	return obs, "{" + strings.Join(comp, ",") + "|" + strings.Join(retd, ",") + "|" + strings.Join(canc, ",") + "}"
+	return obs, "{" + strings.Join(comp, ",") + "|" + strings.Join(retd, ",") + "|" + strings.Join(canc, ",") + "|" + strings.Join(rels, ",") + "}"
 }
 
 func (h *hist) execute() {
@@ -1205,6 +1230,15 @@ func (h *hist) finish() {
 		if c.began && !c.implRet {
 			h.stuck = true
 		}
+		// arguments released exactly once by the time the call has completed
+		if !c.viaAns() && len(c.completions) > 0 {
+			if c.rel == 0 {
+				h.flag("args-not-released")
+			}
+			if c.rel > 1 {
+				h.flag("args-released-twice")
+			}
+		}
 	}
 	if h.shutCalls > 0 && !h.shutDone {
 		h.stuck = true
@@ -1223,6 +1257,14 @@ func (h *hist) finish() {
 		}
 		comp = append(comp, fmt.Sprintf("%d:%s", c.id, s))
 	}
+	var relv []string
+	for _, c := range h.calls {
+		if c.viaAns() {
+			relv = append(relv, fmt.Sprintf("%d:?", c.id)) // the library's own ReleaseArgs: not observable
+		} else {
+			relv = append(relv, fmt.Sprintf("%d:%d", c.id, c.rel))
+		}
+	}
 	var ord []string
 	for _, x := range h.order {
 		ord = append(ord, fmt.Sprint(x))
@@ -1236,8 +1278,8 @@ func (h *hist) finish() {
 	if len(vs) > 0 {
 		v = strings.Join(vs, "+")
 	}
-	h.result = fmt.Sprintf("ok order=%s maxrun=%d compl=%s shut=%d deliv=%s viol=%s",
-		strings.Join(ord, ","), h.maxrun, strings.Join(comp, ","), h.shutUser, strings.Join(h.deliv, ","), v)
+	h.result = fmt.Sprintf("ok order=%s maxrun=%d compl=%s shut=%d deliv=%s rel=%s viol=%s",
+		strings.Join(ord, ","), h.maxrun, strings.Join(comp, ","), h.shutUser, strings.Join(h.deliv, ","), strings.Join(relv, ","), v)
 	h.class = fmt.Sprintf("max%d-run%d-shut%d", h.max, h.maxrun, h.shutUser)
 	if h.stuck {
 		h.result = "stuck " + h.result
